@@ -217,6 +217,7 @@ func genC16(seed uint64, run int, tier string) *RunSpec {
 	// layouts: optional; a layout may hold its own v-once element and share a component with the page
 	layoutMarkers := map[string]func(int, bool) int{}
 	var slotMarkers []string
+	directSlots := false
 	useLayout := r.Chance(40)
 	if useLayout {
 		lm := g.onceMarker()
@@ -229,7 +230,12 @@ func genC16(seed uint64, run int, tier string) *RunSpec {
 			layoutMarkers[sm] = func(int, bool) int { return 2 }
 		}
 		lay := fmt.Sprintf(`<section class="lay"><em v-once>%s</em><em v-once>%sX</em>`, lm, lm)
-		if r.Bool() {
+		if r.Chance(30) {
+			// the layout itself places one of the page's named slots, twice
+			lay += `<slot name="head"></slot><slot name="head"></slot>`
+			slotMarkers = []string{g.onceMarker(), g.onceMarker()}
+			directSlots = true
+		} else if r.Bool() {
 			// the page's named slots (each with its own v-once element) are placed by a component of the layout
 			g.put("components/Frame.vuego", `<div class="frame"><header><slot name="head"></slot></header><footer><slot name="foot"></slot></footer></div>`)
 			lay += `<template include="components/Frame.vuego"></template>`
@@ -306,12 +312,15 @@ func genC16(seed uint64, run int, tier string) *RunSpec {
 		if p.slots {
 			// the page render emits the content of its <template #name> elements once, and the layout's frame
 			// component places each named slot once more (the rule applies to page and layout separately)
-			for _, m := range slotMarkers {
+			for mi, m := range slotMarkers {
 				op.Expect.Kinds[m] = "page's named slot placed by a component of the layout"
-				if isFile {
+				if directSlots {
+					op.Expect.Kinds[m] = "page's named slot placed twice by the layout itself"
+				}
+				if isFile && !(directSlots && mi == 1) {
 					op.Expect.Markers[m] = 2
 				} else {
-					op.Expect.Markers[m] = 1
+					op.Expect.Markers[m] = 1 // no layout applied, or a slot the layout does not place: the page's own emission only
 				}
 			}
 		}
